@@ -27,8 +27,8 @@ ENTRIES = [
     B('chunked-search', "        chunked_match = re.match(\n", "        chunked_match = re.search(\n", 'C08-D1'),
     B('chunked-test-on-content-encoding', "            response.fields.get('Transfer-Encoding', ''),\n            re.IGNORECASE",
       "            response.fields.get('Content-Encoding', ''),\n            re.IGNORECASE", 'C08-D1'),
-    B('length-read-until-close', "        elif read_strategy == 'length':\n            yield from self._read_body_by_length(response, file)",
-      "        elif read_strategy == 'length':\n            yield from self._read_body_until_close(response, file)", 'C08-D1'),
+    B('length-read-until-close', "            elif read_strategy == 'length':\n                yield from self._read_body_by_length(response, file)",
+      "            elif read_strategy == 'length':\n                yield from self._read_body_until_close(response, file)", 'C08-D1'),
     B('field-names-case-sensitive', "        normalized_name = normalize_name(name, self._normalize_overrides)\n        self._map[normalized_name].append(value)",
       "        self._map[name].append(value)", 'C08-D1', NVF),
     # ------------------------------------------------------------------ D2 no-body rule
@@ -36,7 +36,8 @@ ENTRIES = [
     B('codes-without-304', "    [http.client.NO_CONTENT, http.client.NOT_MODIFIED]", "    [http.client.NO_CONTENT]", 'C08-D2'),
     B('codes-with-205', "    [http.client.NO_CONTENT, http.client.NOT_MODIFIED]", "    [http.client.NO_CONTENT, http.client.RESET_CONTENT, http.client.NOT_MODIFIED]", 'C08-D2'),
     B('status-code-str', "                    (groups[0], int(groups[1]), groups[2]),", "                    (groups[0], groups[1], groups[2]),", 'C08-D2', RQ),
-    B('no-body-not-consulted', "        if is_no_body(request, response):\n            return\n\n", "", 'C08-D2'),
+    B('no-body-not-consulted', "        if not is_no_body(request, response):\n", "        if True:\n", 'C08-D2'),
+    B('regress-no-body-returns-before-close-decision', "        if not is_no_body(request, response):\n", "        if is_no_body(request, response):\n            return\n\n        if True:\n", 'C08-D6'),
     B('head-test-dropped', "            and (\n                response.status_code in no_content_codes\n                or request.method.upper() == 'HEAD'\n            ):",
       "            and response.status_code in no_content_codes:", 'C08-D2'),
     # ------------------------------------------------------------------ D3 length reader
@@ -105,8 +106,8 @@ ENTRIES = [
     B('chunk-readexactly', "            data = yield from self._connection.read(size)", "            data = yield from self._connection.reader.readexactly(size)", 'C08-D7', K),
     B('read-size-zero', "        self._read_size = 4096\n        self._decompressor = None", "        self._read_size = 0\n        self._decompressor = None", 'C08-D7'),
     B('connection-ignores-size', "                self.reader.read(amount),", "                self.reader.read(),", 'C08-D7', 'wpull/network/connection.py'),
-    B('peek-in-read-body', "        read_strategy = self.get_read_strategy(response)\n",
-      "        read_strategy = self.get_read_strategy(response)\n        yield from self._connection.readline()\n", 'C08-D7'),
+    B('peek-in-read-body', "            read_strategy = self.get_read_strategy(response)\n",
+      "            read_strategy = self.get_read_strategy(response)\n            yield from self._connection.readline()\n", 'C08-D7'),
 
     # ------------------------------------------------------------------ benign twins
     N('rename-counter', "bytes_left", "remaining", all_=True),
@@ -114,8 +115,8 @@ ENTRIES = [
     N('decrement-spelled-out', "            bytes_left -= len(data)\n\n            if bytes_left < 0:", "            bytes_left = bytes_left - len(data)\n\n            if bytes_left < 0:"),
     N('chunked-pattern-noncapturing', "            r'chunked($|;)',", "            r'chunked(?:;|$)',"),
     N('dispatch-reordered',
-      "        if read_strategy == 'chunked':\n            yield from self._read_body_by_chunk(response, file, raw=raw)\n        elif read_strategy == 'length':\n            yield from self._read_body_by_length(response, file)\n        else:",
-      "        if read_strategy == 'length':\n            yield from self._read_body_by_length(response, file)\n        elif read_strategy == 'chunked':\n            yield from self._read_body_by_chunk(response, file, raw=raw)\n        else:"),
+      "            if read_strategy == 'chunked':\n                yield from self._read_body_by_chunk(response, file, raw=raw)\n            elif read_strategy == 'length':\n                yield from self._read_body_by_length(response, file)\n            else:",
+      "            if read_strategy == 'length':\n                yield from self._read_body_by_length(response, file)\n            elif read_strategy == 'chunked':\n                yield from self._read_body_by_chunk(response, file, raw=raw)\n            else:"),
     N('should-close-early-return', "    if http_version == 'HTTP/1.0':\n        return connection_field.replace('-', '') != 'keepalive'\n    else:\n        return connection_field == 'close'",
       "    if http_version != 'HTTP/1.0':\n        return connection_field == 'close'\n\n    return not connection_field.replace('-', '') == 'keepalive'", UT),
     N('no-body-early-return', "        return True\n    else:\n        return False", "        return True\n\n    return False"),
